@@ -22,7 +22,7 @@ from concurrent.futures import ThreadPoolExecutor
 VERIF = os.path.dirname(os.path.dirname(os.path.abspath(__file__)))
 COQ = os.path.join(VERIF, "coq")
 BUILD = os.path.join(VERIF, "build")
-REPO = "/repo"
+REPO = os.environ.get("UP_REPO", "/repo")
 COQ_FLAGS = ["-Q", os.path.join(COQ, "theories"), "UPV", "-w",
              "-notation-overridden,-deprecated-hint-without-locality,-deprecated-instance-without-locality,-abstract-large-number"]
 
@@ -241,7 +241,7 @@ class Ctx:
         violations.sort(key=lambda f: (not f.property_fails, len(json.dumps(f.payload, default=str))))
         os.makedirs(os.path.join(VERIF, "replays"), exist_ok=True)
         seen = set()
-        for f in violations[:5]:
+        for f in violations[:3]:
             blob = json.dumps({"property": self.pid, "kind": f.kind, "what": f.what, "tags": f.tags,
                                "seed": self.seed, "tier": self.tier, "payload": f.payload,
                                "property_fails_on_implementation": f.property_fails,
